@@ -255,6 +255,24 @@ pub(crate) fn check_repository<S: Open>(
         }
     }
 
+    if opts.read_data {
+        // the name of a snapshot or index file is the hash of its content; a file whose content was
+        // replaced by that of another valid file decrypts fine and is only noticed here
+        for file_type in [FileType::Snapshot, FileType::Index] {
+            for id in be.list(file_type)? {
+                match be.read_full(file_type, &id) {
+                    Ok(data) if hash(&data) == id => {}
+                    Ok(_) => collector.add_error(CheckError::FileHashMismatch { id, file_type }),
+                    Err(err) => collector.add_error(CheckError::ErrorReadingFile {
+                        id,
+                        file_type,
+                        source: err,
+                    }),
+                }
+            }
+        }
+    }
+
     let (index_collector, missing_packs) = check_packs(repo, be, hot_be.as_ref(), &collector)?;
 
     if let Some(cache) = &cache {
@@ -854,6 +872,8 @@ pub enum CheckError {
     },
     /// Cached file Type: {file_type:?}, Id: {id} is not identical to backend!
     CacheMismatch { id: Id, file_type: FileType },
+    /// File Type: {file_type:?}, Id: {id}: Hash of the content does not match the id
+    FileHashMismatch { id: Id, file_type: FileType },
     /// pack {id}: No time is set! Run prune to correct this!
     PackTimeNotSet { id: PackId },
     /// pack {id}: blob {blob_id} blob type does not match: type: {blob_type:?}, expected: {expected:?}
